@@ -26,10 +26,10 @@ Definition ru_plain_resp_types : list string := filter (fun rt => negb (ru_issue
 
 Definition ru_client : client :=
   mkClient 1%N false [GAuthorizationCode; GRefreshToken; GImplicit; GCiba] ru_resp_types ["https://c1.example/cb"]
-           "openid email" CibaPoll false false false false false false false 0%N false.
+           "openid email" CibaPoll false false false false false false false 0%N false None.
 Definition ru_opts (rotation : bool) : list opt := (rc_opts rotation ++ [WithImplicitGrant])%list.
 Definition ru_params (rt : string) : params :=
-  mkParams 0%N "https://c1.example/cb" "" rt "openid email" "st" "n-1" PkEmpty "" 0%N "" 0%N "" [].
+  mkParams 0%N "https://c1.example/cb" "" rt "openid email" "st" "n-1" PkEmpty "" 0%N "" 0%N "" [] None.
 
 (* pushed request_uri, response type rt, a policy that finishes at once: AByPar ... ASave (the save that
    clears the request_uri index) when a code is issued, AByPar ... ADel otherwise *)
@@ -37,7 +37,7 @@ Definition ru_consume (rt : string) : ckind := if rt_contains rt "code" then KAS
 Definition scn_uri (rt : string) (rotation : bool) : racescn :=
   mkRaceScn POpenID (ru_opts rotation) [] [ru_client]
     [OpPar (mkPReq rc_cred (ru_params rt) no_bind)]
-    (OpAuthorize (mkAReq 1%N ((ru_params rt) <| p_request_uri := mint 0%nat KParUri |>) true (PolSuccess "alice" "openid email" [])))
+    (OpAuthorize (mkAReq 1%N ((ru_params rt) <| p_request_uri := mint 0%nat KParUri |>) true (PolSuccess "alice" "openid email" [] [])))
     KAGet (ru_consume rt).
 
 (* the storage calls of the unchanged flow *)
